@@ -389,12 +389,11 @@ Proof.
            destruct Hr as [<-|[]]. exists DefTime; eexists; (split; [reflexivity|]). pinned.
   - unfold init_refs in Hr. cbn [generated] in Hm.
     destruct (init_script_of s) as [sc|] eqn:E; [|discriminate].
-    unfold init_script_of in E. destruct (h_init s); [|discriminate].
+    unfold init_script_of in E. destruct (h_init s) eqn:HI; [|discriminate].
     destruct (make_init_script (h_cls s)) as [sc'|] eqn:G; [|discriminate]. injection E as ->.
     assert (IG : forall e, In e (init_globs (h_cls s)) -> In e (attrs_layers s)).
     { intros e He. apply (in_layers_snippet s MInit); [|exact He].
-      cbn [generated]. unfold init_script_of. destruct (h_init s); [|discriminate].
-      now rewrite G. }
+      cbn [generated]. unfold init_script_of. now rewrite HI, G. }
     unfold script_refs in Hr. apply in_app_iff in Hr as [Hr|Hr].
     + destruct (param_refs_registered (h_cls s) _ _ Hr) as (e & -> & He). exists DefTime, e. split; [reflexivity | now apply IG].
     + destruct (body_refs_registered _ _ _ G Hr) as (e & -> & [He|He]).
@@ -478,7 +477,7 @@ Proof.
         cbn [free_refs] in Hr. unfold init_refs in Hr. rewrite E in Hr.
         unfold script_refs in Hr. apply in_app_iff in Hr as [Hr|Hr].
         - exfalso. apply in_flat_map in Hr as (p & _ & Hr). unfold pdefault_refs in Hr.
-          destruct (snd p); [destruct Hr| |]; destruct Hr as [Hr|[]]; discriminate Hr.
+          destruct (snd p); [destruct Hr| |]; destruct Hr as [Hr|[]]; unfold rf in Hr; cbn in Hr; discriminate Hr.
         - unfold names_of. apply (in_map (fun r : ref => snd (fst r))) in Hr. exact Hr. }
       apply mem_str_In in X. rewrite X in G. discriminate.
     + apply shape_not_simple_local; [assumption|]. apply bound_locals_simple.
@@ -494,7 +493,7 @@ Proof.
   destruct (refs_registered _ _ _ Hm Hr) as (st' & e & E & He).
   destruct e as [n' b']. unfold rf in E. cbn in E. injection E as <- <- <-.
   unfold resolve.
-  rewrite (locals_clear s m st (n, b) G Hm Hr He).
+  assert (LC := locals_clear s m st (n, b) G Hm Hr He). cbn [fst] in LC. rewrite LC.
   rewrite assemble_layers, lookup_last_app.
   assert (NG : naming_guard s = true) by (unfold guard in G; now apply andb_true_iff in G as [G _]).
   rewrite (lookup_last_functional n (attrs_layers s) b He).
@@ -555,7 +554,7 @@ Definition ex_spec : hspec :=
 
 Example ex_spec_nonvacuous :
   guard ex_spec = true /\ generated_methods ex_spec = [MRepr; MEq; MHash; MInit] /\
-  List.length (free_refs ex_spec MInit) = 8 /\ List.length (free_refs ex_spec MRepr) = 6.
+  List.length (free_refs ex_spec MInit) = 9 /\ List.length (free_refs ex_spec MRepr) = 6.
 Proof. repeat split. Qed.
 
 (** The assembly before the repair is not hermetic: a module-level [_config] or
